@@ -464,6 +464,10 @@ fn repeat_iterable(n: &Value, seq: &DynObject) -> Result<Value, Error> {
     }));
 
     if let Some(tuple) = seq.downcast_ref::<Tuple>() {
+        // nothing to repeat; do not spin through the count
+        if total_len == 0 {
+            return Ok(Value::from(Tuple::default()));
+        }
         // tuples are materialized eagerly, so the length is an allocation size
         let capacity = ok!(Some(total_len)
             .filter(|&x| x <= MAX_REPEATED_TUPLE_LEN)
@@ -475,6 +479,11 @@ fn repeat_iterable(n: &Value, seq: &DynObject) -> Result<Value, Error> {
             values.extend(tuple.iter().cloned());
         }
         return Ok(Value::from(Tuple::from(values)));
+    }
+
+    // nothing to repeat; do not spin through the count on iteration
+    if total_len == 0 {
+        return Ok(Value::from(Vec::<Value>::new()));
     }
 
     // This is not optimal.  We only query the enumerator for the length once
